@@ -209,7 +209,7 @@ theorem perEns_core (status : Status) : ∀ (l : List (Picked × List Rat)) {s s
       rename_i s4 tn4 pns4 hrec
       simp only [Except.ok.injEq, Prod.mk.injEq] at hp
       obtain ⟨rfl, rfl, _⟩ := hp
-      have hc2 := h.congr (s' := { { s with locked := popLocked p.pn s.locked.length 0 s.locked } with
+      have hc2 := h.congr (s' := { { s with locked := popLocked p.pn s.locked.length 0 s.locked, lockedOrd := popLockedOrd p.pn s.locked.length 0 s.locked s.lockedOrd } with
           frac := s.frac ++ [(tn, List.replicate s.n 0)], wts := s.wts ++ [(tn, w)] })
         ⟨rfl, rfl, rfl, rfl, rfl⟩
       obtain ⟨hc3, ha3⟩ := addTraj_core (tn' := tn + 1) (slotOf p) p.pn tn p.ens w hc2 hadd rfl
@@ -236,7 +236,7 @@ theorem perEns_core (status : Status) : ∀ (l : List (Picked × List Rat)) {s s
       rename_i s4 tn4 pns4 hrec
       simp only [Except.ok.injEq, Prod.mk.injEq] at hp
       obtain ⟨rfl, rfl, _⟩ := hp
-      have hc2 := h.congr (s' := { s with locked := popLocked p.pn s.locked.length 0 s.locked })
+      have hc2 := h.congr (s' := { s with locked := popLocked p.pn s.locked.length 0 s.locked, lockedOrd := popLockedOrd p.pn s.locked.length 0 s.locked s.lockedOrd })
         ⟨rfl, rfl, rfl, rfl, rfl⟩
       obtain ⟨q, hq, hqlt⟩ := h.live (slotOf p) hlt
       have hqp : q = p.pn := by
